@@ -16,6 +16,7 @@ op      = C!src | R!src!mods | M!tgt!mod | T!src!reforms!exts     src / tgt = in
 reforms = - | path$mods%path$mods…                 exts = - | name$vars$params%…  (vars / params as above)
 mods    = - | mod&mod&…
 mod     = add~classdef | upd~classdef | rep~classdef | neu~name | ann~name | par~pu+pu+…
+          | ext~name^vars^params                    load_extension(package), directly or from apply()
 pu      = name@a@b@val                            b = "-" for an open-ended update
 queries = ord,ord,…                               dates at which formulas and parameters are read
 stage   = (ok|ERR):<snap>;<snap>;…                one snapshot per system alive, "=" when the
@@ -64,25 +65,6 @@ where
     pure { name := name, valueType := optTok vt, default := optTok dflt, entity := optTok ent,
            defPeriod := optTok dp, endDate := e, setInput := optTok si, formulas := fs }
 
-def parsePUpd? (s : String) : Option PUpd :=
-  match s.splitOn "@" with
-  | [name, a, b, v] => do
-    let a ← a.toInt?
-    let b ← parseOptInt? b
-    if v = "" then none
-    pure { name := name, a := a, b := b, v := if v = "null" then none else some v }
-  | _ => none
-
-def parseMod? (s : String) : Option Mod :=
-  match s.splitOn "~" with
-  | ["add", c] => (parseClassDef? c).map Mod.add
-  | ["upd", c] => (parseClassDef? c).map Mod.update
-  | ["rep", c] => (parseClassDef? c).map Mod.replace
-  | ["neu", n] => if n = "" then none else some (Mod.neutralize n)
-  | ["ann", n] => if n = "" then none else some (Mod.annualize n)
-  | ["par", us] => (allSome ((us.splitOn "+").map parsePUpd?)).map Mod.params
-  | _ => none
-
 def parseParams? (s : String) : Option ParamTree :=
   if s = "-" then some [] else
   allSome ((s.splitOn ";").map fun f =>
@@ -101,6 +83,31 @@ def parseParams? (s : String) : Option ParamTree :=
 
 def parseVars? (s : String) : Option (List ClassDef) :=
   if s = "-" then some [] else allSome ((s.splitOn ";").map parseClassDef?)
+
+def parsePUpd? (s : String) : Option PUpd :=
+  match s.splitOn "@" with
+  | [name, a, b, v] => do
+    let a ← a.toInt?
+    let b ← parseOptInt? b
+    if v = "" then none
+    pure { name := name, a := a, b := b, v := if v = "null" then none else some v }
+  | _ => none
+
+def parseMod? (s : String) : Option Mod :=
+  match s.splitOn "~" with
+  | ["add", c] => (parseClassDef? c).map Mod.add
+  | ["upd", c] => (parseClassDef? c).map Mod.update
+  | ["rep", c] => (parseClassDef? c).map Mod.replace
+  | ["neu", n] => if n = "" then none else some (Mod.neutralize n)
+  | ["ann", n] => if n = "" then none else some (Mod.annualize n)
+  | ["par", us] => (allSome ((us.splitOn "+").map parsePUpd?)).map Mod.params
+  | ["ext", x] =>
+    match x.splitOn "^" with
+    | [name, cds, ps] => do
+      if name = "" then none
+      pure (Mod.loadExt { name := name, vars := (← parseVars? cds), params := (← parseParams? ps) })
+    | _ => none
+  | _ => none
 
 def parseReform? (s : String) : Option (String × List Mod) :=
   match s.splitOn "$" with
